@@ -279,23 +279,23 @@ func main() {
 			"violations":  viol,
 			"assumptions": p.Assumptions,
 			"coverage": map[string]any{
-				"explanation": p.Explanation,
-				"obligations": total,
-				"discharged":  held,
-				"known_findings": knownN,
-				"undecided":   und,
-				"checker_cmd": fmt.Sprintf("/verif/run.sh %s %s", p.ID, *tier),
-				"trusted_base": p.Trusted,
-				"evaluations": total,
+				"explanation":         p.Explanation,
+				"obligations":         total,
+				"discharged":          held,
+				"known_findings":      knownN,
+				"undecided":           und,
+				"checker_cmd":         fmt.Sprintf("/verif/run.sh %s %s", p.ID, *tier),
+				"trusted_base":        p.Trusted,
+				"evaluations":         total,
 				"distinct_nontrivial": len(distinct),
-				"rule": "one obligation per rule instance (call site, method, store, table, field, path) found in /repo's current type-checked sources; distinct = distinct rule|construct keys; every obligation is non-trivial in that it is a construct of the real program matched by object identity",
-				"samples":            samples,
-				"rules":              stats,
-				"packages_loaded":    len(c.Pkgs),
-				"functions_analysed": funcs,
-				"exhaustive":         true,
-				"selftest":           selfRes,
-				"inline_prepass":     inlineNote(c.InlineLog),
+				"rule":                "one obligation per rule instance (call site, method, store, table, field, path) found in /repo's current type-checked sources; distinct = distinct rule|construct keys; every obligation is non-trivial in that it is a construct of the real program matched by object identity",
+				"samples":             samples,
+				"rules":               stats,
+				"packages_loaded":     len(c.Pkgs),
+				"functions_analysed":  funcs,
+				"exhaustive":          true,
+				"selftest":            selfRes,
+				"inline_prepass":      inlineNote(c.InlineLog),
 			},
 		}
 		b, _ := json.MarshalIndent(ev, "", " ")
